@@ -538,6 +538,9 @@ func (e *engine) Run(src *vs.Source, tier string, idx int64) (res *simkit.RunRes
 		// initialised or high-water-mark state inside a shared value is
 		// otherwise warmed up by the reference pass and never seen racing).
 		concurrentFirst := src.Stream("main").Intn(2, "order/concurrent-first") == 1
+		if degraded() {
+			concurrentFirst = false // budgets are off in degraded mode: non-terminating calls must be known (and skipped) first
+		}
 		// ---- R1: every call alone, canonical order, single task
 		runReference := func() bool {
 			for t, script := range sc.scripts {
